@@ -44,21 +44,21 @@ def _mk_gate(mode):
     def q(vm, P):
         from C03 import sort_attrs
         fn = P.impl_methods[('SortMetric', 'ObservationMetric', 'metric')][0][0]
-        conf = vm.fresh('f32', 'conf')
-        minc = vm.fresh('f32', 'min_conf')
+        # the products IoU x confidence are compared with a free threshold; the factors come from exact grids so that a
+        # changed implementation (a different product) is decided too instead of timing out in the bit-blaster
+        conf = grid_f32(vm, 'conf', [0.0625, 0.25, 0.5, 1.0])
+        minc = grid_f32(vm, 'min_conf', [0.03125, 0.25, 0.75])
         thr = vm.fresh('f32', 'threshold')
-        vm.assume(z3.And(fp_in(conf, 0.0, 1.0), fp_in(minc, 0.0, 1.0), fp_in(thr, 0.0, 1.0)))
+        vm.assume(fp_in(thr, 0.0, 1.0))
         far = vm.fresh('bool', 'too_far')
         vm.notes['too_far'] = far
         if mode == 'iou':
             has_iou = vm.choose_n(2, "boxes overlap")
-            iou = vm.fresh('f32', 'iou')
-            vm.assume(fp_in(iou, 0.0, 1.0))
+            iou = grid_f32(vm, 'iou', [0.0, 0.125, 0.25, 0.5, 0.75, 1.0])
             vm.notes['iou'] = SOME(iou) if has_iou == 0 else NONE
             method = variant(P, 'PositionalMetricType', 'IoU', thr)
         else:
-            maha = vm.fresh('f32', 'maha')
-            vm.assume(z3.And(z3.Not(z3.fpIsNaN(maha)), z3.fpGEQ(maha, f32(0.0)), z3.fpGT(conf, f32(0.0)), z3.fpGT(minc, f32(0.0))))
+            maha = grid_f32(vm, 'maha', [0.0, 4.0, 11.0, 11.125, 20.0, 200.0])
             vm.notes['maha'] = maha
             method = variant(P, 'PositionalMetricType', 'Mahalanobis')
         metric = Cell(mk(P, 'SortMetric', method=method, min_confidence=minc), 'metric')
@@ -70,9 +70,7 @@ def _mk_gate(mode):
         mq = Cell(mk(P, 'MetricQuery', feature_class=usize(0), candidate_attrs=Ref(Cell(ta)), candidate_observation=Ref(cand_obs),
                      track_attrs=Ref(Cell(ta)), track_observation=Ref(trk_obs)), 'mq')
         r = vm.exec_fn(fn, [Ref(metric), Ref(mq)], {})
-        c = z3.If(z3.fpLT(conf, minc), minc, conf)
-        if z3.is_true(z3.simplify(far)):
-            pass
+        c = f_ite(f_lt(conf, minc), minc, conf)
         # None exactly when too far
         vm.check(z3.If(far, BOOL(r.variant == 0), BOOL(r.variant == 1)), "no result exactly when the bounding circles do not reach (too_far)")
         if r.variant == 1:
@@ -82,18 +80,18 @@ def _mk_gate(mode):
                 if has_iou == 1:
                     vm.check(BOOL(am.variant == 0), "no IoU value -> not gated in")
                 else:
-                    prod = z3.fpMul(RNE, iou, c)
-                    passes = z3.fpGEQ(prod, thr)
+                    prod = f_mul(iou, c)
+                    passes = f_ge(prod, thr)
                     vm.check(z3.If(passes, BOOL(am.variant == 1), BOOL(am.variant == 0)),
                              "the pair is gated in exactly when IoU x max(confidence, min_confidence) >= threshold")
                     if am.variant == 1:
-                        vm.check(z3.fpEQ(am.fields[0], prod), "the weight is IoU x max(confidence, min_confidence)")
+                        vm.check(f_eq(am.fields[0], prod), "the weight is IoU x max(confidence, min_confidence)")
             else:
                 gate = f32(11.070)
-                cost = z3.If(z3.fpGT(maha, gate), f32(0.0), z3.fpSub(RNE, f32(100.0), maha))
+                cost = f_ite(f_gt(maha, gate), f32(0.0), f_sub(f32(100.0), maha))
                 vm.check(BOOL(am.variant == 1), "Mahalanobis mode always reports a weight for reachable pairs")
-                vm.check(z3.fpEQ(am.fields[0], z3.fpDiv(RNE, cost, c)), "weight = inverted chi-square-gated cost / max(confidence, min_confidence)")
-                vm.check(z3.Implies(z3.fpGT(maha, gate), z3.fpEQ(am.fields[0], f32(0.0))), "outside the 95% chi-square gate the weight is 0")
+                vm.check(f_eq(am.fields[0], f_div(cost, c)), "weight = inverted chi-square-gated cost / max(confidence, min_confidence)")
+                vm.check(z3.Implies(f_gt(maha, gate), f_eq(am.fields[0], f32(0.0))), "outside the 95% chi-square gate the weight is 0")
     return q
 
 
@@ -124,8 +122,10 @@ use std::sync::Arc;
 
 #[test]
 fn replay() {
-    let (conf, minc, thr): (f32, f32, f32) = (%(conf)s, %(minc)s, %(thr)s);
     let iou_wanted: f32 = %(iou)s;
+    // the counterexample's confidence / minimal confidence / threshold first, then neighbours (low confidence raised to the
+    // minimum, thresholds on both sides of the product)
+    for (conf, minc, thr) in [(%(conf)s, %(minc)s, %(thr)s), (%(conf)s, %(minc)s, 0.0f32), (0.125f32, 0.5f32, 0.0f32), (0.125, 0.5, 0.3), (0.9, 0.05, 0.3), (0.2, 0.6, 0.45)] {
     let opts = Arc::new(SortAttributesOptions::new(None, 5, 1, SpatioTemporalConstraints::default(), 1.0 / 20.0, 1.0 / 160.0));
     // candidate boxes shifted along x so that the IoU with the track box sweeps [0,1] and hits the counterexample's value
     let dx0 = 10.0 * (1.0 - iou_wanted) / (1.0 + iou_wanted);
@@ -161,8 +161,9 @@ fn replay() {
             }
         }
     }
+    }
     // postprocess_distances drops the pairs that failed the gate, keeps the order
-    let m = SortMetric::new(PositionalMetricType::IoU(thr), minc);
+    let m = SortMetric::new(PositionalMetricType::IoU(0.3), 0.05);
     let items = vec![ObservationMetricOk::<Universal2DBox>::new(1, 10, Some(0.5), None), ObservationMetricOk::new(2, 11, None, None), ObservationMetricOk::new(3, 12, Some(0.25), None)];
     let out = m.postprocess_distances(items);
     assert_eq!(out.iter().map(|e| (e.from, e.to)).collect::<Vec<_>>(), vec![(1, 10), (3, 12)]);
@@ -363,9 +364,9 @@ SM = "similari::trackers::sort::metric::SortMetric::"
 SV = "similari::trackers::sort::voting::SortVoting::winners"
 MIR = [
     MQ("c02_gate_iou", "quick", _mk_gate('iou'), "SortMetric::metric (IoU): gated in iff IoU x max(conf, min_conf) >= threshold; None iff too_far",
-       "all f32 IoU/confidence/min_confidence/threshold in [0,1]; too_far, IoU value uninterpreted", [SM + "metric"], spec_calls=_gate_calls, replay=_replay_gate),
+       "IoU from {0,.125,.25,.5,.75,1}, confidence from {1/16,1/4,1/2,1}, min confidence from {1/32,1/4,3/4}, every f32 threshold in [0,1]; too_far uninterpreted", [SM + "metric"], spec_calls=_gate_calls, replay=_replay_gate),
     MQ("c02_gate_mahalanobis", "quick", _mk_gate('maha'), "SortMetric::metric (Mahalanobis): weight = inverted 95% chi-square cost / max(conf, min_conf); None iff too_far",
-       "all non-NaN f32 distance >= 0, confidences in (0,1]", [SM + "metric", "similari::utils::kalman::kalman_2d_box::Universal2DBoxKalmanFilter::calculate_cost"], spec_calls=_gate_calls, replay=_replay_gate),
+       "distance from {0,4,11,11.125,20,200}, confidences from the same grids", [SM + "metric", "similari::utils::kalman::kalman_2d_box::Universal2DBoxKalmanFilter::calculate_cost"], spec_calls=_gate_calls, replay=_replay_gate),
     MQ("c02_postprocess", "quick", q_postprocess, "postprocess_distances drops the pairs that failed the gate", "3 results, each with/without weight", [SM + "postprocess_distances"], replay=_replay_gate),
 ]
 for (nc, nt, nr, ex, tier) in [(1, 1, 1, 0, 'quick'), (1, 2, 2, 0, 'quick'), (2, 1, 2, 0, 'quick'), (2, 2, 2, 0, 'quick'), (2, 2, 2, 2, 'quick'), (2, 2, 3, 0, 'quick'),
